@@ -30,7 +30,11 @@ fn fail(out: &mut Vec<Finding>, oracle: &str, s: &Entry, l: &Entry, ver: u32, va
 
 pub fn check_pair(s: &Entry, l: &Entry, val: &Val, out: &mut Vec<Finding>, st: &mut Stats) {
     let ver = s.ty.max_version();
-    let Ok(enc) = encode(&s.ty, val, ver) else { return };
+    let enc = match encode(&s.ty, val, ver) {
+        Ok(e) => e,
+        Err(vmodel::wire::WireErr::Opaque) => vmodel::wire::Enc::default(),
+        Err(_) => return,
+    };
     let c = claim(&s.ty, &l.ty, ver);
     st.add("C05.pairs", 1);
     match c {
@@ -68,7 +72,7 @@ pub fn check_pair(s: &Entry, l: &Entry, val: &Val, out: &mut Vec<Finding>, st: &
         (Ok(lv), Claim::MustAccept) => {
             // the payload really written (hash containers choose their own element order)
             let payload = &bytes[bytes.len() - enc.bytes.len().min(bytes.len())..];
-            let want = decode(&l.ty, payload, ver).ok().map(|x| canon(&l.ty, &x.0));
+            let want = if s.ty.has_opaque() { Some(canon(&l.ty, val)) } else { decode(&l.ty, payload, ver).ok().map(|x| canon(&l.ty, &x.0)) };
             let got = lv.vals.first().map(|v| canon(&l.ty, v));
             if !lv.raw.is_empty() || got != want {
                 fail(out, "accepted_but_different_value", s, l, ver, val, "MustAccept", format!("loaded {:?} expected {:?}", got.map(|v| v.short()), want.map(|v| v.short())));
